@@ -21,7 +21,8 @@ class Job(object):
 
     def __init__(self, harness, cfg, name=None, block=2, pkg_key='default',
                  max_paths=3000, query_timeout_ms=20000, validate=2,
-                 max_int_values=6):
+                 max_int_values=6, nra_timeout_ms=30000):
+        self.nra_timeout_ms = nra_timeout_ms
         self.harness, self.cfg = harness, cfg
         self.name = name or '%s %s' % (harness, json.dumps(cfg, sort_keys=True))
         self.block, self.pkg_key = block, pkg_key
@@ -83,6 +84,7 @@ def run_job(args):
     eng = E.Engine(job.name, query_timeout_ms=job.query_timeout_ms,
                    max_paths=job.max_paths, seed=seed,
                    max_int_values=job.max_int_values)
+    eng.nra_timeout_ms = getattr(job, 'nra_timeout_ms', 30000)
     path_models = []
 
     def body(e):
